@@ -119,7 +119,8 @@ def _gray_strategy(tier):
             top = 2 ** bits - 2
             vals = [min(v, top) for v in vals]
         return dict(part="gray", rel=rel, kind=kind, dtype=dtype,
-                    shape=shape, values=vals)
+                    shape=shape, values=vals,
+                    layout=draw(st.sampled_from(_LAYOUTS)))
     return build()
 
 
@@ -133,8 +134,8 @@ def _mask(bits):
 
 def _biterr_strategy(tier):
     holder, shapes = _holder(), _shape(tier)
-    bitcls = st.sampled_from([4, 12, 32, 62])
-    allbits = set(DTYPE_BITS.values()) | {4, 12, 32, 62}
+    bitcls = st.sampled_from([4, 12, 32, 62, 64])
+    allbits = set(DTYPE_BITS.values()) | {4, 12, 32, 62, 63, 64}
     ints = {b: _ints(b) for b in allbits}
     # second operand: a xor mask (few bits / any), stays in [0, 2^bits)
     masks = {b: _mask(b) for b in allbits}
@@ -147,6 +148,9 @@ def _biterr_strategy(tier):
     def build(draw):
         kind, dtype = draw(holder)
         cap = 62 if dtype == "pyint" else DTYPE_BITS[dtype]
+        # ("all pairs of non-negative integer arrays": the 64-bit types up
+        # to their own limits)
+        cap = {"uint64": 64, "int64": 63}.get(dtype, cap)
         bits = min(cap, draw(bitcls))
         shape = draw(shapes) if kind == "array" else []
         n = 1
@@ -173,8 +177,12 @@ def _biterr_strategy(tier):
         layout_b = "C"
         if kind == "array" and len(shape) >= 2 and draw(mixed):
             layout_b = "F"
+        if axis is not None and draw(mixed):
+            axis = axis - len(shape)        # the same axis counted from the end
         return dict(part="biterr", kind=kind, dtype=dtype, dtype_b=dtype_b,
-                    shape=shape, a=a, b=b, axis=axis, layout_b=layout_b)
+                    shape=shape, a=a, b=b, axis=axis, layout_b=layout_b,
+                    layout_a=draw(st.sampled_from(_LAYOUTS)),
+                    layout_b2=draw(st.sampled_from(_LAYOUTS)))
     return build()
 
 
@@ -421,6 +429,30 @@ def _hold(values, kind, dtype, shape):
     return np.array(values, dtype=getattr(np, dtype)).reshape(shape)
 
 
+def _relayout(arr, layout):
+    """the same logical array in another memory layout"""
+    if not isinstance(arr, np.ndarray) or arr.ndim == 0 or layout == "C":
+        return arr
+    if layout == "F":
+        return np.asfortranarray(arr)
+    if layout == "T":
+        # a transposed view of a C-ordered array (what ``x.T`` gives)
+        return np.ascontiguousarray(arr.T).T
+    if layout == "strided":
+        big = np.zeros(arr.shape[:-1] + (2 * arr.shape[-1] + 1,),
+                       dtype=arr.dtype)
+        big[..., 1::2] = arr
+        return big[..., 1::2]
+    if layout == "readonly":
+        out = arr.copy()
+        out.flags.writeable = False
+        return out
+    raise AssertionError(layout)
+
+
+_LAYOUTS = ["C", "C", "C", "F", "T", "strided", "readonly"]
+
+
 def _unhold(out, kind, shape, what, tags):
     """library output -> flat list of Python ints (shape checked)"""
     if kind == "array":
@@ -457,10 +489,13 @@ def _check_gray(case, ctx):
         if not vals:
             ctx.label("gray:empty_array")
     ctx.nontrivial(any(v >= 2 ** 16 for v in vals))
-    x = _hold(vals, kind, dtype, shape)
+    lay = case.get("layout", "C") if kind == "array" and vals else "C"
+    if lay != "C":
+        ctx.label("gray:layout=" + lay)
+    x = _relayout(_hold(vals, kind, dtype, shape), lay)
 
     if rel == "consecutive":
-        x1 = _hold([v + 1 for v in vals], kind, dtype, shape)
+        x1 = _relayout(_hold([v + 1 for v in vals], kind, dtype, shape), lay)
         g0 = _unhold(binary2gray(x), kind, shape, "binary2gray", tags)
         g1 = _unhold(binary2gray(x1), kind, shape, "binary2gray", tags)
         for v, a, b in zip(vals, g0, g1):
@@ -532,8 +567,21 @@ def _check_biterr(case, ctx):
         hb = np.asfortranarray(hb)
         ctx.label("biterr:second_fortran_order")
     ha = _hold(a, kind, dtype, shape)
+    if kind == "array" and a and "layout_a" in case:
+        la, lb = case["layout_a"], case["layout_b2"]
+        ha = _relayout(ha, la)
+        if case.get("layout_b", "C") != "F":
+            hb = _relayout(hb, lb)
+        if la != "C" or lb != "C":
+            ctx.label("biterr:layouts=%s/%s" % (la, lb))
+    if axis is not None and axis < 0:
+        ctx.label("biterr:negative_axis")
+        axis_lib = axis
+        axis = axis + len(shape)
+    else:
+        axis_lib = axis
     res = count_bit_errors(ha, hb) if axis is None \
-        else count_bit_errors(ha, hb, axis)
+        else count_bit_errors(ha, hb, axis_lib)
     if axis is None:
         if np.ndim(res) != 0:
             raise Violation("biterr_shape", "result of shape %r without axis"
